@@ -2,12 +2,13 @@
 from mc.explore import dev_explore, replay_witness
 from mc.scen2 import Inter, Mix
 
-RULE = ('DEV over the family "one interaction (plus an unrelated request-response), every ending": complete, complete flag '
+RULE = ('(1) DEV over the family "one interaction (plus an unrelated request-response), every ending": complete, complete flag '
         'on last element, empty completion, application error (failed future / raising handler / publisher on_error), '
         'cancel by the requester at every point, cancel racing completion, channel directions closing in both orders and '
         'abnormally; both initiators, fragment size {None, 64}, links {tcp, msg}; after the fair flush both endpoints must '
         'hold no open stream and no partially reassembled frame; non-trivial = execution whose interaction ended '
-        'abnormally (error/cancel) or with fragmentation on')
+        'abnormally (error/cancel) or with fragmentation on; (2) SEQ: one real endpoint vs a scripted legal peer whose fragmented payload is interrupted '
+        'by our own terminal action (cancel / publisher error / completion) at every point, the peer then stopping or sending fragments still in flight')
 EXPLANATION = 'stateless deviation-bounded exploration of real endpoints; oracle = the observation assert_no_open_streams makes, extended to the reassembly cache'
 ASSUMPTIONS = ['connection stays open; publishers respect credit', 'asyncio ready queue FIFO']
 BUDGET_S = {'quick': 240, 'thorough': 3000}
@@ -76,12 +77,14 @@ def make_units(tier, monitors_=('nostate',)):
             continue
         units.append({'name': 'mix:' + u['name'], 'inters': u['inters'], 'flavour': u['flavour'], 'fs': u['fs'], 'bound': 1 if tier == 'quick' else u['bound'],
                       'shard': u['shard'], 'monitors': list(monitors_), 'policy': 'deliver-first'})
+    from mc.props import c10_seq
+    units.extend(c10_seq.make_units(tier))
     return units
 
 
 def bounds(tier):
-    us = make_units(tier)
-    return {'endings': [e[0] for e in endings()], 'deviation_bounds': sorted({u['bound'] for u in us}),
+    us = [u for u in make_units(tier) if u.get('kind') != 'seq']
+    return {'interrupted_fragment_sequences_depth': 4 if tier == 'quick' else 5, 'endings': [e[0] for e in endings()], 'deviation_bounds': sorted({u['bound'] for u in us}),
             'scenario_configs': len({(u['name'], repr(u['inters']), u['flavour'], u['fs']) for u in us})}
 
 
@@ -98,6 +101,9 @@ def scenario_of(unit):
 
 
 def run_unit(unit, part):
+    if unit.get('kind') == 'seq':
+        from mc.props import c10_seq
+        return c10_seq.run_unit(unit, part)
     scn = scenario_of(unit)
     dev_explore(scn, unit['bound'], part, shard=tuple(unit['shard']), det_every=200)
 
@@ -108,4 +114,7 @@ def scenario_from(name, params):
 
 def replay(rec):
     w = rec['witness']
+    if w.get('kind') == 'seq':
+        from mc.props import c10_seq
+        return c10_seq.replay(rec)
     return bool(replay_witness(scenario_from(w['scenario'], w['params']), w))
